@@ -4,7 +4,8 @@
    Model: model/Sync.v = the code after the fix commits ca69f52 (tombstone lookup in
    Node::filter_existing), bb1bffb (every deletion record of an answer is stored), ad91329 (a deletion
    record removes only the version it names or an older one).  Both former known-finding classes of
-   C11 are repaired; the statement now holds on the faithful model. *)
+   C11 (rows) are repaired; for ROWS the statement holds on the faithful model (C11_holds). The model also
+   carries references and reference deletion records: there one class is open (class 4). *)
 From DV Require Import Sync SyncObs SyncP Run_C11 C11P Run_C03 C03P.
 
 (* the statement, against the faithful model: any number of peers, any history of creations, updates,
@@ -39,6 +40,14 @@ Theorem C11_records_everywhere : forall n hist final,
   all_agree (run_sys (init_sys n) (hist ++ final)) = true.
 Proof. exact C03P.outside_known. Qed.
 Print Assumptions C11_records_everywhere.
+
+(* references: refuted on the faithful model — the same reference added on two peers (two creation
+   dates), the later one removed: a peer applies the deletion record and still shows the reference at
+   its older version (EdgeDeletionEntry::delete_all removes the exactly named version only) — class 4, open *)
+Theorem C11_refuted_ref_below :
+  spec_C11 C11P.witness_ref_below (run_C11 C11P.witness_ref_below) = false /\ known_C11 C11P.witness_ref_below = [4].
+Proof. exact C11P.refuted_ref_below. Qed.
+Print Assumptions C11_refuted_ref_below.
 
 (* batching: a day's deletion records may arrive cut into any number of batches; applying them batch by
    batch gives what applying the whole answer gives, provided the split loses no record (the proviso is
